@@ -44,6 +44,7 @@ def make_profile(prop, rng, tier):
     p['dil_w'] = [8, 3, 0.3, 0.1, 0.5]
     p['cap_w'] = [3, 6, 1, 0.5, 0.1, 0.02]
     p['stale_p'] = 0.0
+    p['list_w'] = rng.choice([1, 1, 3, 6])       # some programs address wells mostly by lists
     p['same_plate_p'] = 0.35
     lo, hi = p['steps']
     if tier == 'thorough':
